@@ -38,6 +38,10 @@ def scenarios(thorough):
     # drains (service-time watermark flush) while the I/O thread may be in handle_write
     out.append(cc.mk([P(1), P(2)], lookahead=1, workers=1, room=30, extra_client=[["read_after_block", 1, 40], ["read_after_block", 2, 50], ["readall_after_block", 3]],
                      apps={1: {"chunks": [60]}, 2: {"chunks": [30]}}, adj={"outbuf_high_watermark": 50}, name="2plain la=1 hwm=50, backlog above the mark at the end of a request"))
+    # the head of an expecting request behind a running request, and a client that sends the body without waiting
+    for la in (0, 1):
+        out.append(cc.mk([P(1), {"k": 2, "kind": "expect"}], lookahead=la, workers=1, split="joinheads", waits=(), body_in_two=True, name="plain+expect-head in one read, body sent in two pieces without waiting, la=%d" % la))
+        out.append(cc.mk([P(1), {"k": 2, "kind": "expect"}], lookahead=la, workers=2, split="headbody", waits=(), body_in_two=True, name="plain, expect head, body in two pieces - client never waits, la=%d" % la))
     # an out buffer that spills to a file while partly sent, with a pipelined follower behind it
     out.append(cc.mk([P(1), P(2)], lookahead=1, workers=1, room=30, extra_client=[["readall_after_block", 4]],
                      apps={1: {"chunks": [40] * 8}}, adj={"outbuf_high_watermark": 1000, "outbuf_overflow": 250}, name="2plain la=1, out buffer spills while partly sent"))
